@@ -50,7 +50,9 @@ func viaFallback(tc tcase) (failure bool, detail string) {
 	for _, cd := range tc.Conds {
 		switch cd.K {
 		case "errs":
-			b.HandleErrors(errs(cd.Errs)...)
+			es := errs(cd.Errs)
+			b.HandleErrors(es...)
+			c.Scribble(es)
 		case "types":
 			if cd.Type == "" {
 				b.HandleErrorTypes() // a registration call with an empty argument list
@@ -79,7 +81,9 @@ func viaRetry(tc tcase) (failure bool, detail string) {
 	for _, cd := range tc.Conds {
 		switch cd.K {
 		case "errs":
-			b.HandleErrors(errs(cd.Errs)...)
+			es := errs(cd.Errs)
+			b.HandleErrors(es...)
+			c.Scribble(es)
 		case "types":
 			if cd.Type == "" {
 				b.HandleErrorTypes() // a registration call with an empty argument list
@@ -115,7 +119,9 @@ func breakerWith(tc tcase) circuitbreaker.CircuitBreaker[int] {
 	for _, cd := range tc.Conds {
 		switch cd.K {
 		case "errs":
-			b.HandleErrors(errs(cd.Errs)...)
+			es := errs(cd.Errs)
+			b.HandleErrors(es...)
+			c.Scribble(es)
 		case "types":
 			if cd.Type == "" {
 				b.HandleErrorTypes() // a registration call with an empty argument list
@@ -167,7 +173,9 @@ func viaAbort(tc tcase) (abort bool, detail string) {
 	for _, cd := range tc.Conds {
 		switch cd.K {
 		case "errs":
-			b.AbortOnErrors(errs(cd.Errs)...)
+			es := errs(cd.Errs)
+			b.AbortOnErrors(es...)
+			c.Scribble(es)
 		case "types":
 			b.AbortOnErrorTypes(c.TypeTarget(cd.Type))
 		case "result":
@@ -208,7 +216,9 @@ func viaHedgeCancel(tc tcase) (cancel bool, detail string) {
 	for _, cd := range tc.Conds {
 		switch cd.K {
 		case "errs":
-			b.CancelOnErrors(errs(cd.Errs)...)
+			es := errs(cd.Errs)
+			b.CancelOnErrors(es...)
+			c.Scribble(es)
 		case "types":
 			b.CancelOnErrorTypes(c.TypeTarget(cd.Type))
 		case "result":
